@@ -9,6 +9,7 @@ import Sessions.Proofs.Global.Rotate04Ops
 import Sessions.Proofs.Global.Rotate04
 import Sessions.Proofs.Global.Active03Ops
 import Sessions.Proofs.Global.Active03
+import Sessions.Proofs.Global.Active03Link
 import Sessions.Proofs.Global.Faulty11Ops
 import Sessions.Proofs.Global.Faulty11Store
 import Sessions.Proofs.Global.Faulty11Sim
@@ -41,7 +42,9 @@ import Sessions.Proofs.Global.Faulty11
                  `c11_failed_load_global`; ghost `taint`, `cohf_all_histories_partial`, `coh_lost_only_by_shown_fault`,
                  `c09_untainted_crash_equiv`; findings `wf_fails_under_faults`, `pkScript` (the per-id dirty-set
                  statement is false in the model)
-* `Active03Ops`, `Active03` — C03: ghost `G3` (`served`, `lastOK`), relation `KM`, invariant `KS`/`Knows`, `knows_step`,
-                 `knows_all_histories`, `c03_active_not_stale`, `c03_expired_sound_global`, `c03_active_kept_id_partial`,
-                 `c03_active_kept_partial`; provisos `Op3OK` (cache enabled, no cache loss, time forward), `AcceptAll`
+* `Active03Ops`, `Active03`, `Active03Link` — C03: ghost `G3` (`served`, `lastOK`), relation `KM`, invariant `KS`/`Knows`,
+                 `knows_step`, `knows_all_histories`, `c03_active_not_stale`, `c03_active_kept_id` (sessions proper and
+                 reference records), `c03_expired_sound_global`, `c03_expired_refused`; jar/ghost link `Linked`,
+                 `linked_all_histories`, client level `c03_active_kept`, `c03_active_kept_client`; provisos `Op3OK` (cache
+                 enabled, no cache loss, time forward), `Op3LOK` (requests closed by `endReq`), `AcceptAll`
 -/
